@@ -1,6 +1,7 @@
 """Per-property oracles: the per-step refinement relations and world invariants of DESIGN.md
 section 4.  Each oracle gates only on its own property's predicates.
 """
+import copy
 import itertools
 import re
 from collections import Counter
@@ -50,6 +51,14 @@ def _probe_closure(val, name, world=None):
     for i in range(len(base.text)):
         require(sim(o.cells[i], base.cells[i]), name + '.closure_plain_prefix', index=i,
                 want=list(base.cells[i]), got=list(o.cells[i]))
+    if isinstance(val, AnsiString):
+        # the same on an exact clone of the object, appended to in place (a copy made by the library
+        # could drop state that the object itself still carries)
+        c = copy.deepcopy(val)
+        c += 'Z'
+        oc = observe(c)
+        require(oc.text == base.text + 'Z' and oc.cells[-1] == (), name + '.closure_inplace',
+                value=base.to_json(), appended_cell=list(oc.cells[-1]) if oc.cells else None)
     # styled probe: same settings as the last character (exercises the seam-merge path), and a
     # different one
     variants = [('34',)]
@@ -1033,6 +1042,11 @@ class C15(Oracle):
                     require(s.valid and s.parsable, 'guaranteed_forms_valid_and_parsable', setting=str(s), atoms=ids)
                 require(probe.is_formatting_valid() and probe.is_formatting_parsable(),
                         'guaranteed_forms_valid_and_parsable', atoms=ids)
+        # generator-made setting texts over the byte alphabet
+        for text in ctx.op.get('probe_settings', ()):
+            if text:
+                self._check_setting(AnsiSetting(text), ctx, 'probe')
+                ctx.world.count('probe_settings')
         for slot in sorted(ctx.entitled):
             v = w.vals[slot]
             o = ctx.post_all[slot]
@@ -1058,7 +1072,12 @@ class C15(Oracle):
                 if gated:
                     require(fp == all_p, 'is_formatting_parsable_is_conjunction', slot=slot, want=all_p, got=fp,
                             value=o.to_json())
-            if all_v and '\x1b' not in o.text:
+            strippable = all(0x20 <= ord(ch) <= 0x3F for cell in o.cells for c in cell for ch in c)
+            if all_v and not strippable:
+                # "valid" only excludes 0x40-0x7E; bytes outside 0x20-0x3F (DEL, controls, non-ASCII) are
+                # not parameter bytes, so the stripping clause is not evaluated for them (DESIGN 7.3)
+                w.count('skipped:strip_non_parameter_bytes')
+            if all_v and strippable and '\x1b' not in o.text:
                 optimizable = v.is_optimizable()
                 for (op_, rs, re_) in display.FLAG_COMBOS:
                     r = v.to_str(optimize=op_, reset_start=rs, reset_end=re_)
